@@ -15,7 +15,9 @@
     * every later evaluated point is either that first point again (x0 is re-sampled / re-used) or
       the output of an *earlier* `dykstra` call whose projector list ended with the box
       (model.py:143,157: `xpt`, `as_absolute_coordinates`).
-  `close` is `np.allclose` (an input of the model; the driver computes it in `Float`).  No Mathlib.
+  `close` is an input of the model: `np.allclose` for the pinned tree; after the `fix:` commit
+  "always start from the projection of x0" the code no longer consults it and the driver passes the
+  constant `false` (first evaluation = projection of x0).  No Mathlib.
 -/
 
 namespace Dfols
